@@ -89,6 +89,13 @@ class Mask:
     """a boolean selection / truth value that depends on data"""
 
 
+class Cond(Mask):
+    """an elementwise equality test between symbolic values: usable as a mask, and as the condition of np.where"""
+
+    def __init__(self, rel):
+        self.rel = rel
+
+
 class Linspace:
     def __init__(self, a, b, n):
         self.a, self.b, self.n = a, b, n
@@ -310,6 +317,13 @@ class Ev:
         if _num(l) and _num(r):
             l, r = int(l), int(r)
             return {ast.Lt: l < r, ast.LtE: l <= r, ast.Gt: l > r, ast.GtE: l >= r, ast.Eq: l == r, ast.NotEq: l != r}.get(type(op), Mask())
+        if isinstance(op, ast.Eq):
+            ok_ = lambda v: isinstance(v, (np.ndarray, sp.Expr, int)) and not isinstance(v, (bool, MaskedArr))
+            if ok_(l) and ok_(r):
+                try:
+                    return Cond(np.frompyfunc(lambda a_, b_: sp.Eq(sp.sympify(a_), sp.sympify(b_), evaluate=False), 2, 1)(l, r))
+                except Exception:
+                    return Mask()
         return Mask()
 
     def attribute(self, e: ast.Attribute):
@@ -611,6 +625,12 @@ class Ev:
             return np.frompyfunc(sp.Min, 2, 1)(np.frompyfunc(sp.Max, 2, 1)(a, lo_), hi_)
         if d in ("np.logical_not", "np.all", "np.any", "np.logical_and", "np.logical_or", "np.isclose"):
             return Mask()
+        if d == "np.where" and len(e.args) == 3:
+            c_ = self.ev(e.args[0])
+            if not isinstance(c_, Cond):
+                raise self.und(f"np.where on a condition that is not a symbolic equality: {u(e.args[0])[:50]}")
+            a_, b_ = self.need_num(self.ev(e.args[1]), e), self.need_num(self.ev(e.args[2]), e)
+            return np.frompyfunc(lambda r_, x_, y_: sp.Piecewise((sp.sympify(x_), r_), (sp.sympify(y_), True), evaluate=False), 3, 1)(c_.rel, a_, b_)
         if d in ("np.flatnonzero", "np.where", "np.nonzero") and len(e.args) == 1 and isinstance(self.ev(e.args[0]), Mask):
             # positions selected by a data-dependent condition: used like the condition itself
             return Mask() if d == "np.flatnonzero" else (Mask(),)
@@ -1130,6 +1150,50 @@ def _check_dense_layout(ctx: Ctx, mod, worlds: dict) -> None:
 # R4 index <-> coordinate pair; adaptive wiring
 # ------------------------------------------------------------------------------------------------------
 
+def _clamped_floor(t, x):
+    """the floor term of an index expression built from ONE floor by clamping: Min / Max with x-free bounds, np.where with x-free alternatives"""
+    if isinstance(t, sp.floor):
+        return t
+    if isinstance(t, (sp.Min, sp.Max)):
+        inner = [a_ for a_ in t.args if a_.has(x)]
+        if len(inner) == 1:
+            return _clamped_floor(inner[0], x)
+        return None
+    if isinstance(t, sp.Piecewise):
+        inner = [e_ for e_, _ in t.args if e_.has(x)]
+        if len(inner) == 1:
+            return _clamped_floor(inner[0], x)
+        return None
+    return None
+
+
+def _resolve_piecewise(e):
+    """evaluate Piecewise terms whose conditions are decidable equalities (after a substitution)"""
+    e = sp.sympify(e)
+    for _ in range(6):
+        pws = list(e.atoms(sp.Piecewise))
+        if not pws:
+            return e
+        pw = pws[0]
+        chosen = None
+        for val, cond in pw.args:
+            if cond == True:     # noqa: E712  (sympy BooleanTrue)
+                chosen = val
+                break
+            if isinstance(cond, sp.Eq):
+                dlt = sp.expand(_resolve_piecewise(cond.lhs) - _resolve_piecewise(cond.rhs))
+                if dlt == 0:
+                    chosen = val
+                    break
+                if dlt.is_number or dlt.is_nonzero:
+                    continue
+            raise Undecided(f"C41: cannot decide the condition {cond}")
+        if chosen is None:
+            raise Undecided(f"C41: no branch of {pw} applies")
+        e = e.xreplace({pw: chosen})
+    return e
+
+
 def _check_inverse_pair(ctx: Ctx, mod, worlds: dict) -> None:
     for (cname, d), w in worlds.items():
         if d == 3:
@@ -1154,10 +1218,10 @@ def _check_inverse_pair(ctx: Ctx, mod, worlds: dict) -> None:
                           f"adaptive table extends below its base point, and for x below the base point truncation gives the index of the cell ABOVE (floor is needed)",
                           construct=f"{cname}: cell index by floor on axis {j} [d={d}]")
                 continue
-            fl = [t] if isinstance(t, sp.floor) else [a_ for a_ in t.args if isinstance(a_, sp.floor)] if isinstance(t, (sp.Min, sp.Max)) else []
-            if len(fl) != 1 or (t is not fl[0] and any(a_.has(w.x.ravel()[j]) for a_ in t.args if a_ is not fl[0])):
+            fl = _clamped_floor(t, w.x.ravel()[j])
+            if fl is None:
                 raise Undecided(f"{IT}:{cname}._find_base_vertex: index of axis {j} is not a (clamped) floor division: {t}")
-            t = fl[0]
+            t = fl
             arg = t.args[0].subs({w.x.ravel()[j]: node.ravel()[j]}, simultaneous=True)
             ok = _z(arg - w.k.ravel()[j])
             if not ok:
@@ -1184,8 +1248,7 @@ def _check_boundary(ctx: Ctx, mod, worlds: dict) -> None:
     for a in range(d):
         t = w.search[a]
         hi_node = w.coordmap(_arr([n[j] - 1 for j in range(d)]).reshape(-1, 1)).ravel()[a]       # = high_a
-        kmax = t.subs({xs[a]: hi_node}, simultaneous=True)
-        kmax = sp.expand(kmax)
+        kmax = sp.expand(_resolve_piecewise(t.subs({xs[a]: hi_node}, simultaneous=True)))
         if _eq0(kmax - (n[a] - 1)):
             axes.append(a)        # base index n_a - 1 is reachable: vertex n_a is outside the grid
         elif _eq0(kmax - (n[a] - 2)):
@@ -1556,10 +1619,11 @@ MUTANTS = [
     # R4 index/coordinate pair and adaptive wiring
     _m("adaptive-search-forgets-origin", "            floored_ind = ((x_i - base_i) // h_i).astype(int)\n", "            floored_ind = (x_i // h_i).astype(int)\n", "R4"),
     _m("adaptive-node-coordinates-forget-origin", "        coord = self._base_point + self._h * unique_ind\n", "        coord = self._h * unique_ind\n", "R4"),
-    _m("dense-search-forgets-origin", "            ind.append(((x_i - low_i) // h_i).astype(int))\n", "            ind.append((x_i // h_i).astype(int))\n", "R4"),
+    _m("dense-search-forgets-origin", "            ind.append(np.minimum(((x_i - low_i) // h_i).astype(int), npt_i - 2))\n",
+       "            ind.append(np.minimum((x_i // h_i).astype(int), npt_i - 2))\n", "R4"),
     _m("gradient-override-does-not-fill", "        if self._function is not None:\n            self._fill_values(x)\n\n        # Use standard method for differentiation.",
        "        # Use standard method for differentiation.", "R4"),
-    _m("assign-values-ignores-permutation", "        self._pt = np.hstack((self._pt, coord[:, column_permutation]))\n", "        self._pt = np.hstack((self._pt, coord))\n", "R4", control=True),
+    _m("assign-values-ignores-permutation", "        self._pt = np.hstack((self._pt, coord[:, column_permutation]))\n", "        self._pt = np.hstack((self._pt, coord))\n", "R4"),
     _m("function-evaluated-at-indices", "[self._function(*coord[:, i]) for i in indices_to_compute]", "[self._function(*unique_ind[:, i]) for i in indices_to_compute]", "R4"),
     _m("filter-only-coordinates", "            unique_ind = unique_ind[:, np.logical_not(exists)]\n", "", "R4"),
     _m("keys-for-all-values-for-new", "self._table.add([unique_ind[:, i] for i in indices_to_compute], new_values)",
@@ -1567,8 +1631,10 @@ MUTANTS = [
     _m("requested-vertices-only-base", "            return np.asarray(base_ind + incr)\n", "            return np.asarray(base_ind)\n", "R4"),
     _m("gradient-delegates-to-interpolate", "        return super().gradient(x, axis)\n", "        return super().interpolate(x)\n", "R4"),
     # R6 closed box
-    _m("interpolate-loses-boundary-mask", "            values[:, inside_grid] += (\n                weight[inside_grid] * self._values[:, eval_ind[inside_grid]]\n            )\n",
-       "            values += weight * self._values[:, eval_ind]\n", "R6"),
+    _m("revert-fix-base-index-clamp", "            ind.append(np.minimum(((x_i - low_i) // h_i).astype(int), npt_i - 2))\n",
+       "            ind.append(((x_i - low_i) // h_i).astype(int))\n", "R6", control=True),
+    _m("base-index-clamp-off-by-one", "            ind.append(np.minimum(((x_i - low_i) // h_i).astype(int), npt_i - 2))\n",
+       "            ind.append(np.minimum(((x_i - low_i) // h_i).astype(int), npt_i - 1))\n", "R6"),
     _m("seed-cell-index-by-truncation", "            floored_ind = ((x_i - base_i) // h_i).astype(int)\n",
        "            exact_ = (x_i - base_i) / h_i\n            floored_ind = exact_.astype(int)\n", "R4"),
     _m("seed-assign-values-additive", "self._table.add(ind_list, val, additive=False)", "self._table.add(ind_list, val, additive=True)", "R4"),
